@@ -14,7 +14,7 @@ import (
 
 var (
 	regFlags      = regexp.MustCompile(`flags=\(([^)]+)\)`)
-	regHeaderLine = regexp.MustCompile(`(?m)^.*\S *{$`)
+	regHeaderLine = regexp.MustCompile(`(?m)^(.*?\S *{)([ \t]*(?:#.*)?)$`)
 )
 
 type Complain struct {
@@ -33,28 +33,35 @@ func init() {
 // setHeaderFlags applies edit to the flags of each profile header of the
 // profile, one header at a time.
 func setHeaderFlags(profile string, edit func(flags []string) []string) string {
-	return regHeaderLine.ReplaceAllStringFunc(profile, func(header string) string {
-		if strings.HasPrefix(strings.TrimSpace(header), "#") {
-			return header
+	return regHeaderLine.ReplaceAllStringFunc(profile, func(line string) string {
+		if strings.HasPrefix(strings.TrimSpace(line), "#") {
+			return line
 		}
-		flags := []string{}
-		matches := regFlags.FindStringSubmatch(header)
-		if len(matches) != 0 {
-			for _, flag := range strings.Split(matches[1], ",") {
-				flags = append(flags, strings.TrimSpace(flag))
-			}
-		}
-		newFlags := edit(slices.Clone(flags))
-		if slices.Equal(flags, newFlags) {
-			return header
-		}
-		header = regFlags.ReplaceAllLiteralString(header, "")
-		header = strings.TrimSuffix(strings.TrimSuffix(header, "{"), " ")
-		if len(newFlags) == 0 {
-			return strings.TrimSuffix(header, " ") + " {"
-		}
-		return header + " flags=(" + strings.Join(newFlags, ",") + ") {"
+		// The header may be followed by blanks or a comment: keep them as they are
+		parts := regHeaderLine.FindStringSubmatch(line)
+		header, tail := parts[1], parts[2]
+		return editHeaderFlags(header, edit) + tail
 	})
+}
+
+func editHeaderFlags(header string, edit func(flags []string) []string) string {
+	flags := []string{}
+	matches := regFlags.FindStringSubmatch(header)
+	if len(matches) != 0 {
+		for _, flag := range strings.Split(matches[1], ",") {
+			flags = append(flags, strings.TrimSpace(flag))
+		}
+	}
+	newFlags := edit(slices.Clone(flags))
+	if slices.Equal(flags, newFlags) {
+		return header
+	}
+	header = regFlags.ReplaceAllLiteralString(header, "")
+	header = strings.TrimSuffix(strings.TrimSuffix(header, "{"), " ")
+	if len(newFlags) == 0 {
+		return strings.TrimSuffix(header, " ") + " {"
+	}
+	return header + " flags=(" + strings.Join(newFlags, ",") + ") {"
 }
 
 func (b Complain) Apply(opt *Option, profile string) (string, error) {
